@@ -31,6 +31,9 @@ pub enum PatKind {
     SecondMount,
     /// arch/app.{}.log.gz (gzip build only)
     Gz,
+    /// arch/{}-$ENV{VERIF_TEAM}.log with VERIF_TEAM = "team/api": the index ends
+    /// up in a directory component only after expansion
+    EnvSlash,
     /// arch/{}/app.log where the directories of odd indices live on a second
     /// mount (symlinks): every shift crosses a filesystem boundary
     DirSplit,
@@ -72,6 +75,10 @@ impl Names {
                     PatKind::Env => {
                         std::env::set_var("VERIF_ARCH", &a);
                         ("$ENV{VERIF_ARCH}/app.{}.log".to_string(), format!("{}/app.{{}}.log", a), false)
+                    }
+                    PatKind::EnvSlash => {
+                        std::env::set_var("VERIF_TEAM", "team/api");
+                        (format!("{}/{{}}-$ENV{{VERIF_TEAM}}.log", a), format!("{}/{{}}-team/api.log", a), false)
                     }
                     PatKind::SecondMount => {
                         let r2 = root2.map(|p| p.to_string_lossy().to_string()).unwrap_or(a.clone());
